@@ -54,7 +54,7 @@ TrObserve ==
          ELSE ckpt.done < 0      \* an unreadable file is tolerated only while nothing can be resumed
     /\ xdsk = E.xyz /\ torn = E.torn
     /\ ckpt.done = E.ckpt
-    /\ (E.tmpfiles = 0 <=> tmp = "none")
+    /\ E.tmpfiles = litter + (IF tmp = "none" THEN 0 ELSE 1)
     /\ UNCHANGED vars /\ Consume
 TrFinal ==
     /\ IsEv("final") /\ pc = "done"
